@@ -328,4 +328,167 @@ theorem mapMExcept_length {α β} {f : α → Except Err β} {l : List α} {r : 
         cases h
         simp [ih hbs]
 
+/-! Python dict update on association lists (copied from Lemmas/Join.lean under local names) -/
+
+theorem dget_cons {α} (p : String × α) (d : Dict α) (k : String) :
+    Dict.get? (p :: d) k = if p.1 == k then some p.2 else Dict.get? d k := by
+  unfold Dict.get?
+  rw [List.find?_cons]
+  split <;> simp_all
+
+theorem dget_eq_none_iff {α} {d : Dict α} {k : String} : d.get? k = none ↔ k ∉ d.keys := by
+  induction d with
+  | nil => simp [Dict.get?, Dict.keys]
+  | cons p d ih =>
+    rw [dget_cons]
+    simp only [Dict.keys, List.map_cons, List.mem_cons, not_or] at ih ⊢
+    by_cases h : p.1 = k
+    · simp [h]
+    · have : (p.1 == k) = false := by simpa using h
+      rw [this]; simp only [Bool.false_eq_true, if_false]
+      rw [ih]; exact ⟨fun h' => ⟨fun e => h e.symm, h'⟩, fun h' => h'.2⟩
+
+theorem dcontains_eq {α} (d : Dict α) (k : String) : d.contains k = d.keys.contains k := by
+  unfold Dict.contains Dict.keys
+  induction d with
+  | nil => rfl
+  | cons p d ih => simp only [List.any_cons, List.map_cons, List.contains_cons, ih]; rw [Bool.beq_comm]
+
+theorem dget_map_replace {α} (d : Dict α) (k k' : String) (v : α) :
+    Dict.get? (d.map (fun p => if p.1 == k then (k, v) else p)) k' =
+      if k == k' then (d.get? k).map (fun _ => v) else d.get? k' := by
+  induction d with
+  | nil => simp [Dict.get?]
+  | cons p d ih =>
+    rw [List.map_cons, dget_cons, ih, dget_cons, dget_cons]
+    by_cases h1 : p.1 = k <;> by_cases h2 : k = k' <;> by_cases h3 : p.1 = k' <;> simp_all
+
+/-- `d[k] = v` on a dict that HAS the key: every other key reads as before, `k` reads `v` -/
+theorem dget_set_of_mem {α} {d : Dict α} {k : String} {x : α} (hk : d.get? k = some x) (k' : String) (v : α) :
+    (d.set k v).get? k' = if k == k' then some v else d.get? k' := by
+  have hc : d.contains k = true := by
+    rw [dcontains_eq]
+    exact List.contains_iff_mem.mpr (by
+      by_contra h; rw [dget_eq_none_iff.mpr h] at hk; cases hk)
+  unfold Dict.set
+  rw [if_pos hc, dget_map_replace, hk]
+  rfl
+
+/-- … and the keys (with their order) stay -/
+theorem dkeys_set_of_mem {α} {d : Dict α} {k : String} {x : α} (hk : d.get? k = some x) (v : α) :
+    (d.set k v).keys = d.keys := by
+  have hc : d.contains k = true := by
+    rw [dcontains_eq]
+    exact List.contains_iff_mem.mpr (by
+      by_contra h; rw [dget_eq_none_iff.mpr h] at hk; cases hk)
+  unfold Dict.set
+  rw [if_pos hc]
+  unfold Dict.keys
+  rw [List.map_map]
+  apply List.map_congr_left
+  intro p _
+  simp only [Function.comp]
+  split <;> simp_all
+
+/-- what `moment_match` may do to a cell, for a list of selected fields -/
+def MomFields (fs : List String) (c o : Cell) : Prop :=
+  o.coord = c.coord ∧ o.kind = c.kind ∧ o.values.keys = c.values.keys ∧
+  (∀ f, f ∉ fs → o.values.get? f = c.values.get? f) ∧
+  (∀ f ∈ fs, ∃ v, c.values.get? f = some v)
+
+theorem MomRel.toFields {f : String} {c o : Cell} (h : MomRel f c o) : MomFields [f] c o := by
+  obtain ⟨h1, h2, v, drawn, hv, ho⟩ := h
+  refine ⟨h1, h2, ?_, ?_, ?_⟩
+  · rw [ho]; exact dkeys_set_of_mem hv _
+  · intro f' hf'
+    rw [ho, dget_set_of_mem hv]
+    have : (f == f') = false := by
+      simp only [List.mem_singleton] at hf'
+      simpa using fun e => hf' e.symm
+    rw [this]; rfl
+  · intro f' hf'
+    simp only [List.mem_singleton] at hf'
+    subst hf'
+    exact ⟨v, hv⟩
+
+theorem momentLoop_fields {draws : Nat → String → List Rat} :
+    ∀ {fs : List String} {t out : List Cell}, momentLoop draws fs t = .ok out →
+      kindsConsistent t = true → t.Pairwise (fun a b => Cell.le a b) →
+      List.Forall₂ (fun c o => o.coord = c.coord ∧ o.kind = c.kind ∧ o.values.keys = c.values.keys ∧
+        (∀ f, f ∉ fs → o.values.get? f = c.values.get? f)) t out := by
+  intro fs
+  induction fs with
+  | nil =>
+    intro t out h _ _; simp [momentLoop] at h; subst h
+    exact forall₂_refl' (fun _ => ⟨rfl, rfl, rfl, fun _ _ => rfl⟩) t
+  | cons f fs ih =>
+    intro t out h hk hs
+    simp only [momentLoop] at h
+    split at h
+    · cases h
+    · rename_i cells hcells
+      have hrel0 := momentField_rel hcells
+      have hrel := forall₂_imp' (fun _ _ h => (⟨h.1, h.2.1⟩ : _ ∧ _)) hrel0
+      rw [ofCells_same_coords hrel hk hs] at h
+      simp only at h
+      have hk' : kindsConsistent cells = true := by
+        rw [kindsConsistent_of_forall₂ (forall₂_imp' (fun _ _ h => h.2) hrel)]; exact hk
+      have hs' := pairwise_le_of_coords (forall₂_imp' (fun _ _ h => h.1) hrel) hs
+      refine forall₂_trans' ?_ (forall₂_imp' (fun _ _ h => MomRel.toFields h) hrel0) (ih h hk' hs')
+      intro a b c h1 h2
+      refine ⟨h2.1.trans h1.1, h2.2.1.trans h1.2.1, h2.2.2.1.trans h1.2.2.1, ?_⟩
+      intro f' hf'
+      simp only [List.mem_cons, not_or] at hf'
+      rw [h2.2.2.2 f' hf'.2, h1.2.2.2.1 f' (by simpa using hf'.1)]
+
+theorem momentLoop_selected {draws : Nat → String → List Rat} :
+    ∀ {fs : List String} {t out : List Cell}, momentLoop draws fs t = .ok out → fs.Nodup →
+      kindsConsistent t = true → t.Pairwise (fun a b => Cell.le a b) →
+      List.Forall₂ (fun c o => ∀ f ∈ fs, ∃ v drawn, c.values.get? f = some v ∧
+        o.values.get? f = some (generateSamples v drawn)) t out := by
+  intro fs
+  induction fs with
+  | nil =>
+    intro t out h _ _ _; simp [momentLoop] at h; subst h
+    exact forall₂_refl' (fun _ f hf => by simp at hf) t
+  | cons f fs ih =>
+    intro t out h hnd hk hs
+    rw [List.nodup_cons] at hnd
+    simp only [momentLoop] at h
+    split at h
+    · cases h
+    · rename_i cells hcells
+      have hrel0 := momentField_rel hcells
+      have hrel := forall₂_imp' (fun _ _ h => (⟨h.1, h.2.1⟩ : _ ∧ _)) hrel0
+      rw [ofCells_same_coords hrel hk hs] at h
+      simp only at h
+      have hk' : kindsConsistent cells = true := by
+        rw [kindsConsistent_of_forall₂ (forall₂_imp' (fun _ _ h => h.2) hrel)]; exact hk
+      have hs' := pairwise_le_of_coords (forall₂_imp' (fun _ _ h => h.1) hrel) hs
+      have hrest := momentLoop_fields h hk' hs'
+      have hsel := ih h hnd.2 hk' hs'
+      -- combine the two facts about the remaining loop, then chain with the first step
+      have hboth : List.Forall₂ (fun b o => (∀ f', f' ∉ fs → o.values.get? f' = b.values.get? f') ∧
+          ∀ f' ∈ fs, ∃ v drawn, b.values.get? f' = some v ∧
+            o.values.get? f' = some (generateSamples v drawn)) cells out := by
+        clear h hrel0 hrel hcells hk' hs'
+        induction hrest with
+        | nil => cases hsel; exact .nil
+        | cons h1 _ ih2 =>
+          cases hsel with
+          | cons g1 g2 => exact .cons ⟨h1.2.2.2, g1⟩ (ih2 g2)
+      refine forall₂_trans' ?_ hrel0 hboth
+      intro a b c h1 h2 f' hf'
+      obtain ⟨_, _, v, drawn, hv, hb⟩ := h1
+      rcases List.mem_cons.mp hf' with rfl | hf'
+      · refine ⟨v, drawn, hv, ?_⟩
+        rw [h2.1 _ hnd.1, hb, dget_set_of_mem hv]; simp
+      · obtain ⟨v', drawn', hv', ho'⟩ := h2.2 f' hf'
+        refine ⟨v', drawn', ?_, ho'⟩
+        rw [← hv', hb, dget_set_of_mem hv]
+        have : (f == f') = false := by
+          simp only [beq_eq_false_iff_ne, ne_eq]
+          intro e; subst e; exact hnd.1 hf'
+        rw [this]; rfl
+
 end Bermuda.Resample
